@@ -426,6 +426,10 @@ Inductive pc_ev :=
 (* the tree, and what the processor holds: the update_path TEXT as configured *)
 Definition pc_state := (pc_node * option (list N))%type.
 
+(* One request is ONE step: both canonicalize calls of Processor::queue, and the
+   look the observation takes at the entry, see the same tree. A change that
+   lands between them (the time-of-check/time-of-use window inside a request)
+   is outside this model. *)
 Definition pc_step (cwd : pc_path) (api : list N) (s : pc_state) (e : pc_ev)
   : pc_state * option (option (N * list pc_path)) :=
   match e with
